@@ -219,7 +219,7 @@ Qed.
 
 (* ------------------------------------------------------------------ open builders, closed containers *)
 Definition open_op (o : vop) (ins : row) : Prop :=
-  o = DFG ins [] \/ o = Case ins [] \/ exists ji rest, o = TailLoop ji [] rest 0 /\ ins = ji ++ rest.
+  o = DFG ins [] \/ o = Case ins [] \/ exists n, o = TailLoop ins [] [] n.
 Definition OpenB2 (l : list vnode) (b : dfb) : Prop :=
   b_in b = b_parent b + 1 /\ b_out b = b_parent b + 2 /\
   exists o ins pp, nthN l (b_parent b) = Some (mk o pp) /\ open_op o ins /\
@@ -275,7 +275,7 @@ Proof.
   split; [exact Ei|]. split; [exact Eo|]. exists o, ins, pp. unfold s_len in K. rewrite !K by (unfold s_len; lia). auto.
 Qed.
 Lemma open_op_dfk o ins : open_op o ins -> dfk o = true.
-Proof. intros [->|[->|(ji & rest & -> & _)]]; reflexivity. Qed.
+Proof. intros [->|[->|(n & ->)]]; reflexivity. Qed.
 Lemma OpenB2_WB2 st b : OpenB2 (s_nodes st) b -> WB2 st b.
 Proof.
   intros (_ & Eo & o & ins & pp & Hp & Hop & _ & Ho). split.
@@ -400,12 +400,12 @@ Lemma closed_io_strict tys p o ins pp ts o' l' :
   nthN l' p = Some (mk o' pp) -> nthN l' (p + 1) = Some (mk (Input ins) p) -> nthN l' (p + 2) = Some (mk (Output ts) p) ->
   io_strict l' p o' /\ model_op2 o' = true /\ is_case o' = is_case o /\ cond_rows o' = cond_rows o.
 Proof.
-  intros Hop Hs E0 E1 E2. destruct Hop as [->|[->|(ji & rest & -> & ->)]]; cbn in Hs.
+  intros Hop Hs E0 E1 E2. destruct Hop as [->|[->|(n & ->)]]; cbn in Hs.
   - inversion Hs; subst. cbn. auto.
   - inversion Hs; subst. cbn. auto.
   - destruct ts as [|t other]; [discriminate|]. destruct (nthN tys t) as [[c rows| |]|]; try discriminate.
-    destruct rows as [|a [|jo [|]]]; try discriminate. destruct (row_eqb a ji); [|discriminate].
-    inversion Hs; subst. cbn. repeat split; auto. eauto.
+    destruct rows as [|a [|jo [|]]]; try discriminate. destruct (row_eqb a _); [|discriminate].
+    inversion Hs; subst. cbn [io_strict model_op2 is_case cond_rows]. rewrite firstn_skipn. repeat split; auto. eauto.
 Qed.
 
 (* ------------------------------------------------------------------ small facts *)
@@ -589,7 +589,7 @@ Section FrameMain2.
     s_len st4 = s_len st + 3.
   Proof.
     intros (M & CP & LP) P Hw Hop Hc En3 HW En4 El4.
-    assert (Hm : model_op2 co = true) by (destruct Hop as [->|[->|(ji & rest & -> & _)]]; reflexivity).
+    assert (Hm : model_op2 co = true) by (destruct Hop as [->|[->|(n & ->)]]; reflexivity).
     split; [split; [|split]|split; [|split]].
     - rewrite En4, En3. apply ModelOps2_app; [exact M|]. unfold ModelOps2. cbn. now rewrite Hm.
     - rewrite En4, En3. apply CasePos_app; [exact CP|]. cbn. now rewrite Hc.
@@ -685,8 +685,8 @@ Section FrameMain2.
       destruct (OpenB2_pos _ _ OB) as (P & _). fold (s_len st) in P.
       assert (Hws : forall w, In w (jw ++ rw) -> 0 < fst w).
       { intros w Hin. apply in_app_or in Hin. destruct Hin; [eapply get_wires_pos2; [exact EP|exact G1|]|eapply get_wires_pos2; [exact EP|exact G2|]]; assumption. }
-      destruct (container_entry st _ (TailLoop jt [] rt 0) (jt ++ rt) (jw ++ rw) ts4 new st3 st4 F P Hws
-                  (or_intror (or_intror (ex_intro _ jt (ex_intro _ rt (conj eq_refl eq_refl))))) eq_refl En3 HW En4 El4)
+      destruct (container_entry st _ (TailLoop (jt ++ rt) [] [] (lenN jt)) (jt ++ rt) (jw ++ rw) ts4 new st3 st4 F P Hws
+                  (or_intror (or_intror (ex_intro _ (lenN jt) eq_refl))) eq_refl En3 HW En4 El4)
         as (F4 & O4 & K4 & _).
       destruct (IH strict _ _ _ _ _ E5 Hc F4 O4 EP) as (F' & KX & L' & EP' & CF & CB).
       destruct (container_exit st st4 st' (s_len st) eq_refl K4 L4 KX L' CF CB) as (K & L & CF').
@@ -760,7 +760,7 @@ Section FrameMain2.
       pose proof OB1 as (Ei & Eo & o1 & ins1 & pp1 & Hp1' & Hop1 & Hi1 & Ho1).
       rewrite Hp1 in Hp1'. inversion Hp1'; subst o1 pp1; clear Hp1'.
       assert (ins1 = ins0).
-      { destruct Hop as [->|[->|(ji & rest & -> & ->)]]; destruct Hop1 as [Q|[Q|(ji' & rest' & Q & ->)]]; inversion Q; reflexivity. }
+      { destruct Hop as [->|[->|(n & ->)]]; destruct Hop1 as [Q|[Q|(n' & Q)]]; inversion Q; reflexivity. }
       subst ins1.
       assert (Lp1 : b_parent b + 2 < lenN (s_nodes st1)) by (eapply nthN_lt; eauto).
       assert (E0 : nthN (s_nodes st') (b_parent b) = Some (mk o' pp)).
@@ -815,7 +815,7 @@ Section FrameMain2.
       destruct (IHr strict _ _ _ _ _ X0 Hc1 F OBc EP) as (F1 & KX & L1 & EP1 & CF1 & (o & ins0 & pp0 & ts0 & o' & Ha & Hop & Hs & Eb0 & Eb1 & Eb2)).
       cbn [b_parent b_out mkb] in KX, Ha, Eb0, Eb1, Eb2. rewrite Hcase in Ha. inversion Ha; subst o pp0; clear Ha.
       cbn in Hs. inversion Hs; subst o'; clear Hs.
-      assert (ins0 = row ++ others) by (destruct Hop as [Q|[Q|(ji & rest0 & Q & _)]]; inversion Q; reflexivity). subst ins0.
+      assert (ins0 = row ++ others) by (destruct Hop as [Q|[Q|(n0 & Q)]]; inversion Q; reflexivity). subst ins0.
       assert (ts = ts0).
       { unfold out_types, s_op in Xo. cbn [b_out mkb] in Xo. rewrite Eb2 in Xo. cbn in Xo. now inversion Xo. }
       subst ts0.
@@ -885,7 +885,7 @@ Section FrameMain2.
       match type of H with exec_region2 _ _ ?b ?st _ = _ => assert (I0 : Fbase2 st /\ OpenB2 (s_nodes st) b) end.
       { split; [split; [reflexivity|split; [|reflexivity]]|].
         - apply (CasePos_app [] _); [intros j nd E; unfold nthN in E; destruct (N.to_nat j); discriminate|reflexivity].
-        - split; [reflexivity|]. split; [reflexivity|]. exists (TailLoop just [] rest 0), (just ++ rest), 0. cbn [b_parent mkb s_nodes].
+        - split; [reflexivity|]. split; [reflexivity|]. exists (TailLoop (just ++ rest) [] [] (lenN just)), (just ++ rest), 0. cbn [b_parent mkb s_nodes].
           split; [reflexivity|]. split; [right; right; eauto|]. split; reflexivity. }
       destruct I0 as (F0 & O0).
       destruct (IH false _ _ _ _ _ H Hc F0 O0 EP) as (F' & KX & L' & EP' & CF & CB).
